@@ -28,7 +28,10 @@ def run_tlc(module, cfg=None, workdir=None, workers=1, simulate=None, depth=None
     meta = os.path.join(workdir, tag + ".meta")
     shutil.rmtree(meta, ignore_errors=True)
     out = os.path.join(workdir, tag + ".out")
-    cmd = ["java", "-XX:+UseParallelGC", "-Xss16m"] + (java_opts or []) + ["-cp", JAR, "tlc2.TLC",
+    # single-worker TLC processes run side by side (one per shard): serial GC and a bounded heap keep 16 JVMs
+    # from fighting over the cores with 16 GC threads each
+    gc = ["-XX:+UseSerialGC", "-Xmx3g"] if workers == 1 else ["-XX:+UseParallelGC", f"-XX:ParallelGCThreads={max(2, workers)}", "-Xmx8g"]
+    cmd = ["java"] + gc + ["-Xss16m", "-XX:TieredStopAtLevel=4"] + (java_opts or []) + ["-cp", JAR, "tlc2.TLC",
            "-workers", str(workers), "-metadir", meta, "-noGenerateSpecTE", "-config", cfg]
     if coverage:
         cmd += ["-coverage", "1"]
@@ -46,6 +49,11 @@ def run_tlc(module, cfg=None, workdir=None, workers=1, simulate=None, depth=None
         p = subprocess.run(cmd, cwd=module_dir or SPEC, stdout=fh, stderr=subprocess.STDOUT, env=env, timeout=timeout)
     wall = time.time() - t0
     shutil.rmtree(meta, ignore_errors=True)
+    if cfg.startswith(BUILD):
+        try:
+            os.remove(cfg)
+        except OSError:
+            pass
     info = parse_out(out)
     info.update(out=out, wall=wall, rc=p.returncode, cmd=" ".join(cmd[cmd.index("tlc2.TLC"):]))
     if p.returncode != 0 and not (simulate and info.get("error") is None):
